@@ -174,11 +174,13 @@ pub struct CountingWaker {
     outer: Mutex<Option<Waker>>,
     /// self-test: pretend wake-ups were never observed
     pub blind: AtomicBool,
+    /// self-test: swallow wake-ups (they are counted but never reach the executor)
+    pub deaf: AtomicBool,
 }
 
 impl CountingWaker {
     pub fn new() -> Arc<Self> {
-        Arc::new(CountingWaker { fired: AtomicBool::new(false), wakes: AtomicU64::new(0), outer: Mutex::new(None), blind: AtomicBool::new(false) })
+        Arc::new(CountingWaker { fired: AtomicBool::new(false), wakes: AtomicU64::new(0), outer: Mutex::new(None), blind: AtomicBool::new(false), deaf: AtomicBool::new(false) })
     }
     fn set_outer(&self, w: &Waker) {
         let mut g = self.outer.lock().unwrap();
@@ -198,6 +200,9 @@ impl Wake for CountingWaker {
     }
     fn wake_by_ref(self: &Arc<Self>) {
         self.wakes.fetch_add(1, Ordering::SeqCst);
+        if self.deaf.load(Ordering::SeqCst) {
+            return;
+        }
         self.fired.store(true, Ordering::SeqCst);
         let o = self.outer.lock().unwrap().clone();
         if let Some(o) = o {
@@ -253,4 +258,17 @@ pub fn poll_quiescent(rt: &tokio::runtime::Runtime, reader: &mut SendableRecordB
             Err(_) => Polled::PendingQuiescent,
         }
     })
+}
+
+/// At most 5 witnesses per signature are handed to the report (it keeps no more anyway); every
+/// occurrence is counted, so the evidence shows the true number.
+pub fn report_violation(rep: &vcommon::Report, sig: &str, detail: vcommon::Json) {
+    static SEEN: std::sync::Mutex<std::collections::BTreeMap<String, u32>> = std::sync::Mutex::new(std::collections::BTreeMap::new());
+    rep.count(&format!("violation_occurrences/{sig}"), 1);
+    let mut g = SEEN.lock().unwrap_or_else(|e| e.into_inner());
+    let n = g.entry(sig.to_string()).or_insert(0);
+    *n += 1;
+    if *n <= 5 {
+        rep.violation(sig, detail);
+    }
 }
